@@ -12,6 +12,13 @@ from xitorch._utils.bcast import get_bcasted_dims
 
 __all__ = ["LinearOperator"]
 
+def _is_mat_hermitian(mat: torch.Tensor) -> bool:
+    # the absolute tolerance is relative to the magnitude of the matrix, so that
+    # a non-symmetric matrix with small entries is not taken as hermitian
+    matH = mat.transpose(-2, -1).conj()
+    scale = float(mat.abs().max()) if mat.numel() > 0 else 0.0
+    return torch.allclose(mat, matH, rtol=1e-5, atol=1e-8 * scale)
+
 class LinearOperator(EditableModule):
     """
     ``LinearOperator`` is a base class designed to behave as a linear operator
@@ -98,10 +105,10 @@ class LinearOperator(EditableModule):
             if mat.shape[-2] != mat.shape[-1]:
                 is_hermitian = False
             else:
-                is_hermitian = torch.allclose(mat, mat.transpose(-2, -1).conj())
+                is_hermitian = _is_mat_hermitian(mat)
         elif is_hermitian:
             # check the hermitian
-            if not torch.allclose(mat, mat.transpose(-2, -1).conj()):
+            if not _is_mat_hermitian(mat):
                 raise RuntimeError("The linear operator is indicated to be hermitian, but the matrix is not")
 
         return MatrixLinearOperator(mat, is_hermitian)
